@@ -61,6 +61,14 @@ structure Handle where
   tree : Kv.Tree String String := []
   src : Option String := none
 
+/-- the custom merge the harness installs in custom-merge mode: metadata by `LastWriteWins`,
+    payload = the two payloads joined in lexicographic order (tombstones as `LastWriteWins`) -/
+def customMerge (a b : Kv.Entry String) : Kv.Entry String :=
+  let w := S3db.Gen.Crdt.lastWriteWins a b
+  match a.val, b.val with
+  | some x, some y => if a.tomb == 0 && b.tomb == 0 then { w with val := some (if x < y then x ++ "+" ++ y else y ++ "+" ++ x) } else w
+  | _, _ => w
+
 abbrev KvState := AList String Handle
 
 def insertSorted (p : String × String) : List (String × String) → List (String × String)
@@ -93,6 +101,7 @@ def kvStep (st : KvState) (args : List String) : KvState × String :=
   | ["clone", n, m] => (insert m (h n) st, "ok")
   | ["src", n, l] => let hd := h n; (insert n { hd with src := if l == "-" then none else some l } st, "ok")
   | ["merge", n, g] => let hd := h n; (insert n { hd with tree := Kv.mergeTrees Kv.lww hd.tree (h g).tree } st, "ok")
+  | ["mergec", n, g] => let hd := h n; (insert n { hd with tree := Kv.mergeTrees customMerge hd.tree (h g).tree } st, "ok")
   | ["dump", n] =>
     let es := sortByKey ((h n).tree.map fun p => (p.1, showEntry p.2))
     (st, " ".intercalate (es.map fun p => p.1 ++ "=" ++ p.2))
